@@ -273,10 +273,8 @@ impl MqttShared {
         self.flags.set(flags);
 
         // streaming waiter
-        if let Some(tx) = self.streaming_waiter.take()
-            && tx.send(()).is_ok()
-        {
-            return;
+        if let Some(tx) = self.streaming_waiter.take() {
+            let _ = tx.send(());
         }
 
         // check if there are waiters
@@ -482,16 +480,58 @@ impl MqttShared {
     }
 
     pub(super) fn wait_readiness(&self) -> Option<pool::Receiver<()>> {
+        self.wait_readiness_inner(false)
+    }
+
+    fn wait_readiness_inner(&self, front: bool) -> Option<pool::Receiver<()>> {
         let mut queues = self.queues.borrow_mut();
 
         if queues.inflight.len() >= self.cap.get()
             || self.flags.get().contains(Flags::WRB_ENABLED)
         {
             let (tx, rx) = self.pool.waiters.channel();
-            queues.waiters.push_back(tx);
+            if front {
+                queues.waiters.push_front(tx);
+            } else {
+                queues.waiters.push_back(tx);
+            }
             Some(rx)
         } else {
             None
+        }
+    }
+
+    /// Wake up one queued sender, it re-checks readiness when it runs
+    pub(super) fn wake_waiter(&self) {
+        let mut queues = self.queues.borrow_mut();
+        while let Some(tx) = queues.waiters.pop_front() {
+            if tx.send(()).is_ok() {
+                break;
+            }
+        }
+    }
+
+    /// Wait for readiness notification.
+    ///
+    /// The free slot could be taken by another sender between the notification
+    /// and the moment this task runs, so readiness is checked again. If the waiter
+    /// is dropped, the notification is handed over to the next queued sender.
+    pub(super) async fn wait_ready(
+        &self,
+        mut rx: pool::Receiver<()>,
+    ) -> Result<(), SendPacketError> {
+        loop {
+            let mut guard = WaiterGuard { shared: self, armed: true };
+            let result = rx.await;
+            guard.armed = false;
+
+            if result.is_err() {
+                return Err(SendPacketError::Disconnected);
+            }
+            match self.wait_readiness_inner(true) {
+                Some(new_rx) => rx = new_rx,
+                None => return Ok(()),
+            }
         }
     }
 
@@ -509,6 +549,19 @@ impl MqttShared {
         ) {
             Ok(()) => Ok(rx),
             Err(e) => Err(SendPacketError::Encode(e)),
+        }
+    }
+}
+
+struct WaiterGuard<'a> {
+    shared: &'a MqttShared,
+    armed: bool,
+}
+
+impl Drop for WaiterGuard<'_> {
+    fn drop(&mut self) {
+        if self.armed {
+            self.shared.wake_waiter();
         }
     }
 }
